@@ -24,6 +24,8 @@ def _work(args):
     name, backends, recs = args
     import impl
     import checkers  # noqa: F401  registers
+    # the library prints debug output (PieceWiseLinFunc.integral); workers report through return values
+    sys.stdout = open(os.devnull, "w")
     out = []
     n = 0
     try:
@@ -81,11 +83,13 @@ def run_one(ctx, name, rec):
     """re-run a single record (used by --replay)"""
     import impl
     import checkers  # noqa: F401
+    import contextlib
     bes = [rec["_backend"]] if rec.get("_backend") else ["py", "shim"]
     bad = 0
     for be in bes:
         impl.set_backend(be)
-        k, mm = CHECKERS[name](rec, be)
+        with open(os.devnull, "w") as dn, contextlib.redirect_stdout(dn):
+            k, mm = CHECKERS[name](rec, be)
         ctx.evaluations += k
         for m in mm:
             bad += 1
